@@ -325,7 +325,7 @@ def run(tier):
     mat_selfcheck()
     PAIRS.clear()
     h = build()
-    msyn = h.monomorphise(['f32', 'f64'], bound='<S: BaseFloat>', method_syntax='only', soft=True)
+    msyn = h.monomorphise(['f32', 'f64'], bound=None, kinds=None, method_syntax='only', soft=True)
     S, inv, meta = facts.extract(PROP, h.src())
     report_dropped(run, meta, h)
     run_specs(run, S, h, custom={'mat_inverse': check_mat_inverse, 'inverse': check_inverse, 'inverse_vec': check_inverse, 'mat_inverse_vec': check_mat_inverse_vec, 'to_matrix': check_to_matrix,
